@@ -27,7 +27,7 @@ func registerC18() {
 		},
 		MinNontrivial: 300,
 		Families: []lib.Family{
-			{Name: "streams", N: func(t string) uint64 { return tierN(t, 8000, 500000) }, Run: c18Case},
+			{Name: "streams", N: func(t string) uint64 { return tierN(t, 60000, 1000000) }, Run: c18Case},
 		},
 	})
 }
